@@ -54,6 +54,10 @@ void check_contender(H& c, bool enabled, const void* mtx, const Pair* obj, bool 
         MC_CHECK(&*c == obj, "wrong-object", "handle does not refer to the wrapped object");
         (void)c->a;
         cover(4);
+        // "after unlock() the handle is null" holds with locking disabled too
+        c.unlock();
+        MC_CHECK(!bool(c), "unlock-not-null", "locking disabled: handle still non-null after unlock()");
+        MC_CHECK(my_lock_ops() == ops0, "disabled-locks", "locking disabled, but unlock() operated on the mutex");
         return;
     }
     // behavioural reading of "the lock was obtained": this thread holds it when the call returns
@@ -106,6 +110,10 @@ struct Gen {
                 H h2(std::move(h));
                 MC_CHECK(bool(h2), "move-null", "move-constructed handle is null");
                 if (enabled) MC_CHECK(holds(mtx) != 0, "move-lost-lock", "lock not held after move construction");
+                // unlock() on the moved-from handle: it holds nothing, must not release h2's lock, and is null afterwards
+                h.unlock();
+                MC_CHECK(!bool(h), "unlock-not-null", "moved-from handle still non-null after unlock()");
+                if (enabled) MC_CHECK(holds(mtx) != 0, "move-lost-lock", "unlock() of the moved-from handle released the lock of the moved-to handle");
                 point();
                 break;  // h2 destroyed here: releases; then the moved-from h dies in the caller
             }
